@@ -17,6 +17,8 @@
 #include "pv.h"
 #include "ctl_sched.h"
 #include <stdarg.h>
+#include <signal.h>
+#include <unistd.h>
 
 #define K_IDLE 9
 #define MAXOPS 8
@@ -49,6 +51,7 @@ static struct { int f; cell_t *c; } pend[4 * MAXF]; static volatile int pend_h, 
 static volatile int hlock;                       /* harness lock for the deferred-set queue (not hooked) */
 static int dc_b, dc_M, dc_amask, dc_pre;
 static volatile int overflow;
+static char cur_replay[8 * 1600] = "stress";   /* policy text that reproduces the current run */
 
 static void hl(void) { while( __sync_lock_test_and_set(&hlock, 1) ) ; }
 static void hu(void) { __sync_lock_release(&hlock); }
@@ -200,11 +203,22 @@ static int blocked(int t)
     if( k == PARSEC_VERIF_K_CAS && mode == M_DC ) return a && *(volatile int32_t*)a != 0;
     return 0;
 }
+/* every unfinished thread waits for the future: cannot happen on an accepted case unless readiness is broken.
+ * Report it, then force the status bit so that the spinning readers can leave when the run is abandoned. */
+static volatile int deadlocked;
+static const char *cur_case = "";
+static int all_blocked(void)
+{
+    if( !deadlocked ) printf("!viol C29 deadlock [%s] every unfinished thread waits for a future that never becomes ready\n", cur_case);
+    deadlocked = 1;
+    if( mode != M_DC ) bfut->status |= PARSEC_DATA_FUTURE_STATUS_COMPLETED;
+    return -1;
+}
 static int choose_dfs_nb(void *cctx, int step, int ne, const int *en)
 {
     int un[CTL_MAXT], nu = 0;
     for(int i = 0; i < ne; i++) if( !blocked(en[i]) ) un[nu++] = i;
-    if( 0 == nu ) return -1;
+    if( 0 == nu ) return all_blocked();
     int k = ctl_choose_dfs(cctx, step, nu, NULL);
     return k < 0 ? -1 : un[k];
 }
@@ -213,7 +227,7 @@ static int choose_rng_nb(void *cctx, int step, int ne, const int *en)
     pv_rng_t *r = (pv_rng_t*)cctx; (void)step;
     int un[CTL_MAXT], nu = 0;
     for(int i = 0; i < ne; i++) if( !blocked(en[i]) ) un[nu++] = i;
-    if( 0 == nu ) return -1;
+    if( 0 == nu ) return all_blocked();
     if( 0 == pv_below(r, 6) ) return (int)pv_below(r, (uint64_t)ne);     /* sometimes a blocked thread: a stutter step */
     return un[pv_below(r, (uint64_t)nu)];
 }
@@ -246,27 +260,39 @@ static void finish(const char *caseline, int print)
             printf("]\n");
         }
         for(int i = 0; i < nf; i++) {
-            if( fcb[i] > 1 ) printf("!viol C29 dc-trigger-twice %s: fulfilment callback of future %d (shape %d) ran %d times\n", caseline, i, fshape[i], fcb[i]);
-            if( fsets[i] > 1 ) printf("!viol C29 dc-set-twice %s: future %d (shape %d) was set %d times\n", caseline, i, fshape[i], fsets[i]);
+            if( fcb[i] > 1 ) printf("!viol C29 dc-trigger-twice [%s | %s] fulfilment callback of future %d (shape %d) ran %d times\n", caseline, cur_replay, i, fshape[i], fcb[i]);
+            if( fsets[i] > 1 ) printf("!viol C29 dc-set-twice [%s | %s] future %d (shape %d) was set %d times\n", caseline, cur_replay, i, fshape[i], fsets[i]);
             for(int j = 0; j < i; j++) if( fshape[i] % dc_M == fshape[j] % dc_M )
-                printf("!viol C29 dc-duplicate-shape %s: futures %d and %d have matching shapes %d and %d\n", caseline, j, i, fshape[j], fshape[i]);
+                printf("!viol C29 dc-duplicate-shape [%s | %s] futures %d and %d have matching shapes %d and %d\n", caseline, cur_replay, j, i, fshape[j], fshape[i]);
         }
-        if( overflow ) printf("!viol C29 dc-overflow %s: more futures/fulfilments than the harness can hold\n", caseline);
+        if( overflow ) printf("!viol C29 dc-overflow [%s | %s] more futures/fulfilments than the harness can hold\n", caseline, cur_replay);
         PARSEC_OBJ_RELEASE(fut[0]);
         for(int i = 0; i < nf; i++)
-            if( fclean[i] != 1 ) printf("!viol C29 dc-cleanup %s: cleanup callback of future %d ran %d times at release\n", caseline, i, fclean[i]);
+            if( fclean[i] != 1 ) printf("!viol C29 dc-cleanup [%s | %s] cleanup callback of future %d ran %d times at release\n", caseline, cur_replay, i, fclean[i]);
     } else {
         PARSEC_OBJ_RELEASE(bfut);
     }
 }
 
+static void on_alarm(int sig)
+{
+    static const char m[] = "\n!viol C29 hang: a run did not finish within its time limit (a reader waits for ever or a lock is never released)\n";
+    (void)sig;
+    fflush(stdout);
+    if( write(1, m, sizeof m - 1) < 0 ) _exit(4);
+    _exit(3);
+}
 static void one_run(const char *caseline, ctl_choose_t ch, void *cctx)
 {
     static int sched[MAXSTEPS + 8]; int complete;
-    coop = 1;
+    coop = 1; deadlocked = 0; cur_case = caseline;
+    alarm(120);
     setup();
     printf("%s => ok n=%d ", caseline, nthr); print_shared(); printf("\n");
-    ctl_run(nthr, body, NULL, ch, cctx, observe, NULL, MAXSTEPS, sched, &complete);
+    int steps = ctl_run(nthr, body, NULL, ch, cctx, observe, NULL, MAXSTEPS, sched, &complete);
+    alarm(0);
+    {   char *q = cur_replay; q += sprintf(q, "replay");
+        for(int i = 0; i < steps && i < MAXSTEPS; i++) q += sprintf(q, " %d", sched[i]); }
     if( !complete ) { pv_stat("incomplete_runs", 1); finish(caseline, 0); return; }
     print_rets();
     finish(caseline, mode == M_DC);
@@ -292,11 +318,11 @@ static void *stress_worker(void *p)
                 int want = prog[tid][i].a ? prog[tid][i].a % dc_M : dc_b % dc_M;
                 if( v < 100 || v >= 200 || (v - 100) % dc_M != want || (0 == prog[tid][i].a && v - 100 != dc_b) ) {
                     if( 0 == __sync_fetch_and_add(&s_bad, 1) )
-                        printf("!viol C29 dc-value %s: free-running round %d thread %d request T%d returned value %ld\n", s_case, r, tid, prog[tid][i].a, v);
+                        printf("!viol C29 dc-value [%s | %s] free-running round %d thread %d request T%d returned value %ld\n", s_case, cur_replay, r, tid, prog[tid][i].a, v);
                 }
                 if( result[tid][i] != 0 && result[tid][i] != v ) {
                     if( 0 == __sync_fetch_and_add(&s_bad, 1) )
-                        printf("!viol C29 dc-two-values %s: free-running round %d thread %d request T%d returned %ld then %ld\n", s_case, r, tid, prog[tid][i].a, result[tid][i], v);
+                        printf("!viol C29 dc-two-values [%s | %s] free-running round %d thread %d request T%d returned %ld then %ld\n", s_case, cur_replay, r, tid, prog[tid][i].a, result[tid][i], v);
                 }
                 result[tid][i] = v;
             }
@@ -308,20 +334,20 @@ static void *stress_worker(void *p)
                 int nset = 0, okval = 0; long d = bfut->tracked_data ? (long)((int*)bfut->tracked_data - cells) : 0;
                 for(int t = 0; t < nthr; t++) for(int i = 0; i < nops[t]; i++) {
                     if( prog[t][i].k == 'S' ) { nset++; if( prog[t][i].a == d ) okval = 1; }
-                    if( prog[t][i].k == 'G' && result[t][i] != d ) { s_bad++; printf("!viol C29 base-reader %s: free-running round %d: a reader got %ld, the future holds %ld\n", s_case, r, result[t][i], d); }
+                    if( prog[t][i].k == 'G' && result[t][i] != d ) { s_bad++; printf("!viol C29 base-reader [%s | %s] free-running round %d: a reader got %ld, the future holds %ld\n", s_case, cur_replay, r, result[t][i], d); }
                 }
-                if( nset && (cb_base != 1 || !st_compl(bfut) || !okval) ) { s_bad++; printf("!viol C29 base-once %s: free-running round %d: %d sets, callback ran %d times, ready=%d, value %ld\n", s_case, r, nset, cb_base, st_compl(bfut), d); }
+                if( nset && (cb_base != 1 || !st_compl(bfut) || !okval) ) { s_bad++; printf("!viol C29 base-once [%s | %s] free-running round %d: %d sets, callback ran %d times, ready=%d, value %ld\n", s_case, cur_replay, r, nset, cb_base, st_compl(bfut), d); }
             } else if( mode == M_COUNT ) {
                 int nset = 0;
                 for(int t = 0; t < nthr; t++) for(int i = 0; i < nops[t]; i++) if( prog[t][i].k == 'S' ) nset++;
                 int want = (count0 >= 1 && nset >= count0) ? 1 : 0;
-                if( cb_base != want || st_compl(bfut) != want ) { s_bad++; printf("!viol C29 count-ready %s: free-running round %d: count %d, %d sets, callback ran %d times, ready=%d\n", s_case, r, count0, nset, cb_base, st_compl(bfut)); }
+                if( cb_base != want || st_compl(bfut) != want ) { s_bad++; printf("!viol C29 count-ready [%s | %s] free-running round %d: count %d, %d sets, callback ran %d times, ready=%d\n", s_case, cur_replay, r, count0, nset, cb_base, st_compl(bfut)); }
             } else {
                 /* all requests of one class got one value */
                 long byc[16]; memset(byc, 0, sizeof byc);
                 for(int t = 0; t < nthr; t++) for(int i = 0; i < nops[t]; i++) if( prog[t][i].k == 'T' ) {
                     int c = (prog[t][i].a ? prog[t][i].a : dc_b) % dc_M;
-                    if( byc[c] && byc[c] != result[t][i] ) { s_bad++; printf("!viol C29 dc-class-values %s: free-running round %d: class %d was served values %ld and %ld\n", s_case, r, c, byc[c], result[t][i]); }
+                    if( byc[c] && byc[c] != result[t][i] ) { s_bad++; printf("!viol C29 dc-class-values [%s | %s] free-running round %d: class %d was served values %ld and %ld\n", s_case, cur_replay, r, c, byc[c], result[t][i]); }
                     byc[c] = result[t][i];
                 }
             }
@@ -336,10 +362,13 @@ static void stress(const char *caseline, int rounds)
 {
     pthread_t th[CTL_MAXT];
     s_rounds = rounds; s_case = caseline; s_bad = 0;
+    sprintf(cur_replay, "stress %d", rounds);
+    alarm(60 + rounds / 2);
     pthread_barrier_init(&bar, NULL, nthr);
     for(int i = 0; i < nthr; i++) pthread_create(&th[i], NULL, stress_worker, (void*)(intptr_t)i);
     for(int i = 0; i < nthr; i++) pthread_join(th[i], NULL);
     pthread_barrier_destroy(&bar);
+    alarm(0);
     pv_stat("stress_rounds", rounds);
     pv_stat("stress_threads_x_rounds", (long)rounds * nthr);
 }
@@ -386,6 +415,7 @@ int main(void)
 {
     static char line[4096], caseline[4096];
     setvbuf(stdout, NULL, _IOFBF, 1 << 16);
+    signal(SIGALRM, on_alarm);
     /* the "already set" warnings go through the output subsystem (its own lock): silence stream 0 so that the
      * losing branch of set has no further atomic operation; warm up the one-time class initialisations */
     parsec_output_init();
